@@ -4,7 +4,7 @@
     4 * byte 5, payload length bytes 6-7, at least 8 payload bytes, first payload byte = 128),
     for every decodable raw packet. *)
 From Coq Require Import Lia ZifyBool ZifyNat ZifyN.
-From Sci Require Import Scmp.Model Scmp.Spec Scmp.Proofs.
+From Sci Require Import Scmp.Model Scmp.Spec Scmp.Proofs Scmp.Bytes.
 Local Open Scope N_scope.
 Ltac Zify.zify_post_hook ::= Z.div_mod_to_equations.
 Arguments N.add : simpl never.
@@ -238,4 +238,208 @@ Proof.
     rewrite rd_byte; [|apply bytes_ok_sub; exact Hb|rewrite sub_prefix_blen; lia].
     rewrite nthN_prefix by lia. reflexivity.
   - exists n. split; [exact E|reflexivity].
+Qed.
+
+(** * the tie *)
+
+(** the model's reading: converts to an SCMP packet view whose message type is EchoRequest *)
+Definition reads_as_echo_request (v : bytes) : bool :=
+  match as_scmp v with
+  | Ok (Some sv) => match scmp_type sv with Ok t => t =? T_ECHO_REQUEST | _ => false end
+  | _ => false
+  end.
+
+Lemma bytes_ok_payload v : bytes_ok v = true -> bytes_ok (sp_payload v) = true.
+Proof. intros H. unfold sp_payload, subN. apply (bytes_ok_sub v _ _ H). Qed.
+
+Theorem echo_request_reading_is_literal v :
+  bytes_ok v = true -> required_size_raw v = Ok (blen v) ->
+  reads_as_echo_request v = spec_is_echo_request v.
+Proof.
+  intros Hb Hr. unfold required_size_raw, obind in Hr.
+  destruct (header_layout v) as [l| |] eqn:Hl; try discriminate.
+  pose proof (raw_pkt_header v l Hb Hl) as Hh. pose proof (raw_next_header v l Hb Hl) as Hn.
+  pose proof (raw_payload v l Hb Hl) as Hp. pose proof (bytes_ok_payload v Hb) as Hbp.
+  unfold reads_as_echo_request, as_scmp, spec_is_echo_request.
+  rewrite Hh. cbn [obind]. rewrite Hn. cbn [obind].
+  unfold sp_next_hdr, spec_proto_scmp. assert (P : PROTO_SCMP = 202) by reflexivity. rewrite P.
+  destruct (nthN v 4 =? 202) eqn:Enh; cbn [negb andb]; [|reflexivity].
+  (* try_from_slice KScmpPkt v *)
+  unfold try_from_slice at 1. cbn [required_size]. unfold required_size_scmp_pkt.
+  unfold required_size_raw at 1. rewrite Hl. cbn [obind]. rewrite Hp. cbn [obind].
+  inversion Hr as [Hmin]. rewrite Hmin.
+  set (pl := sp_payload v) in *.
+  destruct (required_size_scmp pl) as [n| |] eqn:Ers; cbn [obind].
+  - (* the packet view is the whole buffer *)
+    rewrite !Hmin, N.ltb_irrefl. rewrite sub_all. rewrite Hp. cbn [obind].
+    unfold try_from_slice. cbn [required_size]. rewrite Ers. cbn [obind].
+    destruct (required_size_scmp_bounds _ _ Ers) as [G L].
+    destruct (blen pl <? n) eqn:Ln; [lia|].
+    assert (T : try_from_slice KScmp pl = Ok (sub pl 0 n, sub pl n (blen pl))).
+    { unfold try_from_slice. cbn [required_size]. rewrite Ers. cbn [obind]. rewrite Ln. reflexivity. }
+    destruct (try_scmp_view pl _ _ Hbp T) as (G8 & Ety & _).
+    rewrite Ety. unfold sp_scmp_type. fold pl. unfold lenN. fold (blen pl).
+    destruct (8 <=? blen pl) eqn:C8; [|lia]. cbn [andb].
+    assert (E128 : T_ECHO_REQUEST = spec_echo_request) by reflexivity. rewrite E128. reflexivity.
+  - (* too short / inconsistent: no SCMP view; the specification agrees *)
+    unfold lenN. fold (blen pl). unfold sp_scmp_type. fold pl.
+    destruct (8 <=? blen pl) eqn:C8; [|reflexivity]. cbn [andb].
+    (* 8 bytes are there, so the type-specific fixed part is missing: not an echo request *)
+    destruct (nthN pl 0 =? spec_echo_request) eqn:C128; [|reflexivity].
+    exfalso. apply N.eqb_eq in C128.
+    unfold required_size_scmp in Ers.
+    assert (E0 : required_size_scmp_msg 256 pl = Ok (blen pl)).
+    { unfold required_size_scmp_msg. assert (S8 : scmp_header_size 256 = 8) by reflexivity. rewrite S8.
+      destruct (blen pl <? 8) eqn:C; [lia|]. reflexivity. }
+    rewrite E0 in Ers. unfold obind, get_unchecked in Ers.
+    destruct ((0 <=? blen pl) && (blen pl <=? blen pl)) eqn:C; [|lia].
+    rewrite sub_all in Ers. change ScmpUnknownMessage_TYPE_RNG with (8 * 0, 8 * 1) in Ers.
+    rewrite (rd_byte pl 0 Hbp) in Ers by lia. rewrite C128 in Ers.
+    unfold required_size_scmp_msg in Ers. assert (S : scmp_header_size spec_echo_request = 8) by reflexivity.
+    rewrite S in Ers. destruct (blen pl <? 8) eqn:C'; [lia|discriminate].
+  - (* the constructors never panic *)
+    exfalso. unfold required_size_scmp in Ers.
+    assert (S8 : scmp_header_size 256 = 8) by reflexivity.
+    assert (F : scmp_fixed_size 256 = false) by reflexivity.
+    unfold required_size_scmp_msg at 1 in Ers. rewrite S8, F in Ers.
+    destruct (blen pl <? 8) eqn:C; [discriminate|].
+    unfold obind, get_unchecked in Ers. destruct ((0 <=? blen pl) && (blen pl <=? blen pl)) eqn:C2; [|lia].
+    rewrite sub_all in Ers. change ScmpUnknownMessage_TYPE_RNG with (8 * 0, 8 * 1) in Ers.
+    rewrite (rd_byte pl 0 Hbp) in Ers by lia.
+    unfold required_size_scmp_msg in Ers. destruct (_ <? _) in Ers; discriminate.
+Qed.
+
+(** * SCMP errors: what reaches the receivers, by literal offsets *)
+
+Lemma as_scmp_literal v sv :
+  bytes_ok v = true -> required_size_raw v = Ok (blen v) -> as_scmp v = Ok (Some sv) ->
+  sp_next_hdr v = spec_proto_scmp /\ 8 <= blen (sp_payload v) /\
+  scmp_type sv = Ok (sp_scmp_type v) /\
+  exists n, required_size_scmp_msg (sp_scmp_type v) (sp_payload v) = Ok n /\ sv = sub (sp_payload v) 0 n.
+Proof.
+  intros Hb Hr Ha. unfold required_size_raw, obind in Hr.
+  destruct (header_layout v) as [l| |] eqn:Hl; try discriminate.
+  pose proof (raw_pkt_header v l Hb Hl) as Hh. pose proof (raw_next_header v l Hb Hl) as Hn.
+  pose proof (raw_payload v l Hb Hl) as Hp. pose proof (bytes_ok_payload v Hb) as Hbp.
+  unfold as_scmp in Ha. rewrite Hh in Ha. cbn [obind] in Ha. rewrite Hn in Ha. cbn [obind] in Ha.
+  assert (P : PROTO_SCMP = 202) by reflexivity. rewrite P in Ha.
+  destruct (nthN v 4 =? 202) eqn:Enh; cbn [negb] in Ha; [|discriminate].
+  unfold try_from_slice at 1 in Ha. cbn [required_size] in Ha. unfold required_size_scmp_pkt in Ha.
+  unfold required_size_raw at 1 in Ha. rewrite Hl in Ha. cbn [obind] in Ha. rewrite Hp in Ha. cbn [obind] in Ha.
+  inversion Hr as [Hmin].
+  destruct (required_size_scmp (sp_payload v)) as [n| |] eqn:Ers; cbn [obind] in Ha; try discriminate.
+  rewrite !Hmin, N.ltb_irrefl, sub_all, Hp in Ha. cbn [obind] in Ha.
+  destruct (try_from_slice KScmp (sp_payload v)) as [[sv' rest]| |] eqn:T; try discriminate.
+  inversion Ha; subst sv'; clear Ha.
+  destruct (try_scmp_view _ _ _ Hbp T) as (G8 & Ety & n' & En' & Esv).
+  unfold sp_next_hdr, spec_proto_scmp, sp_scmp_type. apply N.eqb_eq in Enh.
+  refine (conj Enh (conj G8 (conj Ety _))). exists n'. split; assumption.
+Qed.
+
+(** what the error handler reports is, literally: an SCMP packet of one of the five defined
+    error kinds whose fixed part is complete, with its type, and as offending packet everything
+    after the kind's fixed part *)
+Theorem reported_error_is_literal v cb :
+  bytes_ok v = true -> required_size_raw v = Ok (blen v) -> err_handle v = Ok (Some cb) ->
+  spec_is_known_error v = true /\
+  e_ty (cb_msg cb) = sp_scmp_type v /\
+  err_quote v = Some (e_off (cb_msg cb)).
+Proof.
+  intros Hb Hr H. unfold err_handle in H.
+  apply obind_ok in H. destruct H as (hv & _ & H).
+  apply obind_ok in H. destruct H as ([[pt lo] hi] & _ & H).
+  apply obind_ok in H. destruct H as (s & Hs & H). destruct s as [sv|]; [|discriminate].
+  apply obind_ok in H. destruct H as (ty & Hty & H).
+  destruct (scmp_is_error ty) eqn:Eerr; cbn [negb] in H; [|discriminate].
+  apply obind_ok in H. destruct H as (m & Hm & H). inversion H; subst cb; clear H. cbn [cb_msg].
+  destruct (as_scmp_literal v sv Hb Hr Hs) as (Enh & G8 & Ety & n & En & Esv).
+  assert (Et : ty = sp_scmp_type v) by (rewrite Ety in Hty; inversion Hty; reflexivity). clear Hty.
+  (* the five kinds: the view keeps the whole payload *)
+  assert (K : In ty [1; 2; 4; 5; 6]).
+  { unfold scmp_is_error, scmp_is_error_types in Eerr. apply existsb_exists in Eerr.
+    destruct Eerr as (x & Hx & Ex). apply N.eqb_eq in Ex. subst x. exact Hx. }
+  assert (Hfix : exists f, spec_err_fixed ty = Some f /\ scmp_header_size ty = f /\ scmp_fixed_size ty = false).
+  { cbn [In] in K. destruct K as [K|[K|[K|[K|[K|[]]]]]]; rewrite <- K; eexists; repeat split; reflexivity. }
+  destruct Hfix as (f & Hf & Hh & Hnf).
+  rewrite <- Et in En. unfold required_size_scmp_msg in En. rewrite Hh, Hnf in En.
+  destruct (blen (sp_payload v) <? f) eqn:C; [discriminate|]. inversion En; subst n; clear En.
+  rewrite sub_all in Esv. subst sv.
+  (* the model message *)
+  assert (Hoff : e_ty m = ty /\ e_off m = skipn (N.to_nat f) (sp_payload v)).
+  { unfold err_to_model in Hm. apply obind_ok in Hm. destruct Hm as (code & _ & Hm).
+    apply obind_ok in Hm. destruct Hm as (tr & Htr & Hm).
+    assert (Etr : sub (sp_payload v) (fst tr) (snd tr) = skipn (N.to_nat f) (sp_payload v)).
+    { unfold scmp_tail_range in Htr. rewrite Hh in Htr. apply obind_ok in Htr. destruct Htr as (x & _ & Htr).
+      inversion Htr; subst tr; clear Htr. cbn [fst snd].
+      assert (L : byte_lo (f * 8, (blen (sp_payload v) - f) * 8) = f) by (unfold byte_lo, r_start; cbn [fst]; lia).
+      assert (U : byte_hi (f * 8, (blen (sp_payload v) - f) * 8) = blen (sp_payload v)) by (unfold byte_hi, r_end; cbn [fst snd]; lia).
+      rewrite L, U. unfold sub. apply firstn_all2. rewrite skipn_length. unfold blen. lia. }
+    rewrite Etr in Hm.
+    repeat match type of Hm with
+    | (if ?c then _ else _) = _ => destruct c
+    | obind ?x _ = _ => let E := fresh in destruct x eqn:E; cbn [obind] in Hm; try discriminate Hm
+    end; inversion Hm; subst m; split; reflexivity. }
+  destruct Hoff as [Hmty Hmoff].
+  refine (conj _ (conj _ _)).
+  - unfold spec_is_known_error. rewrite Enh, N.eqb_refl. cbn [andb]. rewrite <- Et, Hf.
+    unfold lenN. fold (blen (sp_payload v)). apply andb_true_intro. split; apply N.leb_le; lia.
+  - rewrite Hmty. exact Et.
+  - unfold err_quote. rewrite <- Et, Hf, Hmoff. reflexivity.
+Qed.
+
+(** * the echo reply, by literal offsets: the request's SCMP message from byte 4 on, behind
+    type 129, code 0 and the (recomputed) checksum *)
+
+Lemma be_bytes_2 a b : a < 256 -> b < 256 -> be_bytes 2 (256 * a + b) = [a; b].
+Proof.
+  intros Ha Hb. cbn [be_bytes app]. f_equal; [|f_equal]; lia.
+Qed.
+
+Lemma skipn4_8 (l : bytes) :
+  8 <= blen l -> skipn 4 l = [nthN l 4; nthN l 5; nthN l 6; nthN l 7] ++ skipn 8 l.
+Proof.
+  intros H. unfold blen, nthN in *.
+  rewrite (skipn_nth l 4 0) by lia. rewrite (skipn_nth l 5 0) by lia.
+  rewrite (skipn_nth l 6 0) by lia. rewrite (skipn_nth l 7 0) by lia. reflexivity.
+Qed.
+
+Theorem echo_reply_is_literal v p r :
+  bytes_ok v = true -> required_size_raw v = Ok (blen v) -> echo_handle v p = Ok (Some r) ->
+  rp_payload r = [129; 0; 0; 0] ++ skipn 4 (sp_payload v) /\
+  rp_id r = 256 * nthN (sp_payload v) 4 + nthN (sp_payload v) 5 /\
+  rp_seq r = 256 * nthN (sp_payload v) 6 + nthN (sp_payload v) 7 /\
+  rp_data r = skipn 8 (sp_payload v).
+Proof.
+  intros Hb Hr H.
+  destruct (echo_handle_some v p r H) as (sv & ty & dr & H1 & H2 & H3 & H4 & H5 & H6 & H7 & _ & _ & _ & H11).
+  apply echo_answers_only_echo_request in H3. subst ty.
+  destruct (as_scmp_literal v sv Hb Hr H1) as (_ & G8 & Ety & n & En & Esv).
+  pose proof (bytes_ok_payload v Hb) as Hbp. set (pl := sp_payload v) in *.
+  assert (Et : sp_scmp_type v = T_ECHO_REQUEST) by (rewrite Ety in H2; inversion H2; reflexivity).
+  rewrite Et in En. unfold required_size_scmp_msg in En.
+  assert (S8 : scmp_header_size T_ECHO_REQUEST = 8) by reflexivity.
+  assert (F : scmp_fixed_size T_ECHO_REQUEST = false) by reflexivity. rewrite S8, F in En.
+  destruct (blen pl <? 8); [discriminate|]. inversion En; subst n; clear En.
+  rewrite sub_all in Esv. subst sv.
+  change ScmpEchoRequest_IDENTIFIER_RNG with (8 * 4, 8 * 2) in H4. rewrite (rd_u16 pl 4 Hbp) in H4 by lia.
+  change ScmpEchoRequest_SEQUENCE_NUMBER_RNG with (8 * 6, 8 * 2) in H5. rewrite (rd_u16 pl 6 Hbp) in H5 by lia.
+  change (4 + 1) with 5 in *. change (6 + 1) with 7 in *.
+  assert (Eid : rp_id r = 256 * nthN pl 4 + nthN pl 5) by congruence.
+  assert (Esq : rp_seq r = 256 * nthN pl 6 + nthN pl 7) by congruence.
+  assert (Edata : rp_data r = skipn 8 pl).
+  { rewrite H7. unfold scmp_tail_range in H6. rewrite S8 in H6. apply obind_ok in H6. destruct H6 as (x & _ & H6).
+    inversion H6; subst dr. cbn [fst snd].
+    assert (L : byte_lo (8 * 8, (blen pl - 8) * 8) = 8) by (unfold byte_lo, r_start; cbn [fst]; lia).
+    assert (U : byte_hi (8 * 8, (blen pl - 8) * 8) = blen pl) by (unfold byte_hi, r_end; cbn [fst snd]; lia).
+    rewrite L, U. unfold sub. change (N.to_nat 8) with 8%nat. apply firstn_all2. rewrite skipn_length. unfold blen. lia. }
+  refine (conj _ (conj Eid (conj Esq Edata))).
+  rewrite Scmp.Bytes.encode_echo_reply_closed in H11. inversion H11 as [Epl]. clear H11.
+  rewrite Edata, Eid, Esq.
+  pose proof (bytes_ok_nth pl 4 Hbp). pose proof (bytes_ok_nth pl 5 Hbp).
+  pose proof (bytes_ok_nth pl 6 Hbp). pose proof (bytes_ok_nth pl 7 Hbp).
+  assert (T1 : trunc 16 (256 * nthN pl 4 + nthN pl 5) = 256 * nthN pl 4 + nthN pl 5)
+    by (unfold trunc; change (2 ^ 16) with 65536; lia).
+  assert (T2 : trunc 16 (256 * nthN pl 6 + nthN pl 7) = 256 * nthN pl 6 + nthN pl 7)
+    by (unfold trunc; change (2 ^ 16) with 65536; lia).
+  rewrite T1, T2, (skipn4_8 pl G8). cbn [app]. repeat f_equal; lia.
 Qed.
